@@ -91,6 +91,8 @@ STYLES = {
     'S1': dict(utr='incl_stop', codons=False, order='asc', ensembl=False),
     'S2': dict(utr='incl_stop', codons=True, order='tx', ensembl=False),      # what GENCODE ships
     'S3': dict(utr='after_stop', codons=True, order='tx', ensembl=True),      # what ENSEMBL ships
+    # S2 with multi-byte UTF-8 text in a header comment and in an attribute the models do not keep (bytes != characters)
+    'S4': dict(utr='incl_stop', codons=True, order='tx', ensembl=False, utf8=True),
 }
 CONTEXTS = ('alone', 'outer', 'outer-first', 'left', 'right', 'nested')
 
@@ -288,12 +290,12 @@ def line_specs(ref: refgen.Ref, genes, style: dict):
 UNKEPT = ' level "2"; havana_gene "OTTHUMG1";'
 
 
-def gtf_text(chrom, specs, header=True):
-    lines = ['##description: synthetic annotation for C11', '##provider: verif'] if header else []
+def gtf_text(chrom, specs, header=True, utf8=False):
+    lines = ['##description: synthetic annotation for C11' + (' (annot\u00e9e, \u03b2)' if utf8 else ''), '##provider: verif'] if header else []
     for r in specs:
         attrs = ' '.join(f'{k} "{v}";' for k, v in r['attrs'])
         if r['type'] != 'gene':
-            attrs += f' transcript_type "x"; transcript_name "{r["tx"]}N";'
+            attrs += f' transcript_type "x"; transcript_name "{r["tx"]}N' + ('\u03b21' if utf8 else '') + '";'
         attrs += UNKEPT
         lines.append('\t'.join([chrom, 'HAVANA', r['type'], str(r['start'] + 1), str(r['end']), '.',
                                 '+' if r['strand'] == 1 else '-', '.' if r['frame'] is None else str(r['frame']), attrs]))
